@@ -126,6 +126,16 @@ pub fn make_case(class: u64, idx: u64, seed: u64) -> Case {
     if r.chance(1, 8) {
         password = String::new();
     }
+    if class == 0 && idx % 8 == 3 {
+        // characters a careless reader would trim are part of the password: line terminators, blanks, tabs, NUL at either end
+        let edge = *r.pick(&["\n", "\r\n", "\r", " ", "\t", "\u{0}", "\n\n", " \n"]);
+        password = match r.below(3) {
+            0 => format!("{}{}", password, edge),
+            1 => format!("{}{}", edge, password),
+            _ => edge.to_string(),
+        };
+        cls = "password-edges";
+    }
     if class == 8 {
         // password lengths: every length up to 300 UTF-16 units, then long ones; the units being one- or two-unit characters
         let units = if idx % 400 < 320 { (idx % 400) as usize } else { *r.pick(&[511usize, 512, 513, 1000, 4096, 20000]) };
